@@ -2,14 +2,30 @@
 CV.Repl — model of one replication round (property C19).
 
 Mirrors
-  * agent/consul/acl_replication.go      `diffACLType`
-  * agent/consul/config_replication.go   `diffConfigEntries`
-as ONE generic merge walk over two key-sorted lists, parametrised by
+  * agent/consul/acl_replication.go      `diffACLType`, `replicateACLType`,
+                                         `deleteLocalACLType`, `updateLocalACLType`
+  * agent/consul/config_replication.go   `diffConfigEntries`, `replicateConfig`,
+                                         `reconcileLocalConfig`
+  * agent/consul/leader.go `runACLReplicator` / replication.go `Replicator.Run`
+    (what the caller does with the returned index)
+
+The merge walk is ONE generic function over two key-sorted lists, parametrised by
   * `lt`    the comparator the Go code uses on the sort key
              (ACL: Go string `<` on the ID; config entries: `configentry.Less`)
   * `skip`  keys that the walk ignores (ACL: the empty ID; config entries: none)
   * `same`  the "hashes agree" test (ACL: `bytes.Equal`; config: `configentry.SameHash`,
              which is false when either hash is zero)
+
+The round around the walk (`Rnd`) adds what the real round does with the walk's result:
+  * `fold`     the key normalisation of the secondary's state store. The walk compares keys
+               exactly (case-sensitively) but memdb keys config entries by lower-cased kind/name
+               (`indexFromConfigEntry`) and ACL objects by the parsed UUID (hex is
+               case-insensitive): a delete or upsert hits the row whose FOLDED key matches.
+  * `noRepl`   keys the apply step silently skips (`reconcileLocalConfig`: exported-services)
+  * `delBatch`, `upsLimit`, item `size`  batching (`aclBatchDeleteSize`, `aclBatchUpsertSize`;
+               config entries: one Raft apply per entry)
+  * the order of the writes: ALL deletions first, THEN the upserts
+  * `remoteIndex < lastRemoteIndex ⇒ lastRemoteIndex := 0` and the returned index.
 Core-only Lean; no Mathlib.
 -/
 import CV.Proto
@@ -20,6 +36,7 @@ structure Item (κ : Type) (η : Type) where
   mod  : Nat        -- remote ModifyIndex (ignored for local items)
   hash : η
   val  : Nat        -- abstract content; what "equal to the primary" is about
+  size : Nat        -- `EstimateSize()` (only drives upsert batching)
 deriving Repr, DecidableEq
 
 structure Cfg (κ η : Type) where
@@ -62,23 +79,96 @@ def sortBy (lt : κ → κ → Bool) : List (Item κ η) → List (Item κ η)
   | [] => []
   | x :: xs => insertBy lt x (sortBy lt xs)
 
-/-- Applying a round: delete, then upsert from the remote list. -/
-def applyDiff (l : List (Item κ η)) (dels ups : List κ) (r : List (Item κ η)) : List (Item κ η) :=
-  (l.filter fun x => !(dels.contains x.id) && !(ups.contains x.id)) ++ r.filter fun x => ups.contains x.id
-
 def valOf (xs : List (Item κ η)) (k : κ) : Option Nat := (xs.find? fun x => x.id = k).map (·.val)
 
-/-- one full round as the Go code performs it -/
-def round (c : Cfg κ η) (last : Nat) (l r : List (Item κ η)) : List (Item κ η) :=
-  let (d, u) := diff c last (sortBy c.lt l) (sortBy c.lt r)
-  applyDiff l d u r
+/-! ### the round around the walk -/
+
+structure Rnd (κ η : Type) where
+  cfg      : Cfg κ η
+  fold     : κ → κ
+  noRepl   : κ → Bool
+  delBatch : Nat
+  upsLimit : Nat
+
+/-- the secondary's store deletes the row whose folded key matches -/
+def sdel (fold : κ → κ) (s : List (Item κ η)) (k : κ) : List (Item κ η) :=
+  s.filter fun x => fold x.id != fold k
+
+/-- … and an upsert replaces the row whose folded key matches -/
+def sups (fold : κ → κ) (s : List (Item κ η)) (x : Item κ η) : List (Item κ η) :=
+  (s.filter fun y => fold y.id != fold x.id) ++ [x]
+
+/-- Batching loop shared by `deleteLocalACLType` (size 1 per item, limit 4096) and
+    `updateLocalACLType` (estimated sizes, limit 256 KiB): items join the current batch while the
+    accumulated size is below the limit; `cur` is the open batch (reversed), `acc` its size.
+    (For limit 0 the Go loops do not terminate; both limits are non-zero constants.) -/
+def batchesGo {α : Type} (lim : Nat) (size : α → Nat) : List α → Nat → List α → List (List α)
+  | cur, _, [] => if cur.isEmpty then [] else [cur.reverse]
+  | cur, acc, x :: xs =>
+      if acc < lim then batchesGo lim size (x :: cur) (acc + size x) xs
+      else cur.reverse :: batchesGo lim size [x] (size x) xs
+
+def batches {α : Type} (lim : Nat) (size : α → Nat) (xs : List α) : List (List α) :=
+  batchesGo lim size [] 0 xs
+
+/-- one Raft apply of the round -/
+inductive Op (κ η : Type) where
+  | del (ks : List κ)
+  | ups (xs : List (Item κ η))
+deriving Repr
+
+def execOp (fold : κ → κ) (s : List (Item κ η)) : Op κ η → List (Item κ η)
+  | .del ks => ks.foldl (sdel fold) s
+  | .ups xs => xs.foldl (sups fold) s
+
+/-- "If the remote index ever goes backwards … do a full sync" -/
+def effLast (last ridx : Nat) : Nat := if ridx < last then 0 else last
+
+/-- the deletions the round really applies -/
+def roundDels (R : Rnd κ η) (last ridx : Nat) (l r : List (Item κ η)) : List κ :=
+  (diff R.cfg (effLast last ridx) (sortBy R.cfg.lt l) (sortBy R.cfg.lt r)).1.filter fun k => !R.noRepl k
+
+/-- the objects the round really upserts (`FetchUpdated` / `updates`), in remote sort order -/
+def roundUps (R : Rnd κ η) (last ridx : Nat) (l r : List (Item κ η)) : List (Item κ η) :=
+  let u := (diff R.cfg (effLast last ridx) (sortBy R.cfg.lt l) (sortBy R.cfg.lt r)).2
+  (sortBy R.cfg.lt r).filter fun x => u.contains x.id && !R.noRepl x.id
+
+/-- The Raft applies of one round, in the order the Go code issues them:
+    every deletion batch, then every upsert batch. -/
+def roundOps (R : Rnd κ η) (last ridx : Nat) (l r : List (Item κ η)) : List (Op κ η) :=
+  (batches R.delBatch (fun _ => 1) (roundDels R last ridx l r)).map Op.del ++
+  (batches R.upsLimit Item.size (roundUps R last ridx l r)).map Op.ups
+
+/-- the secondary's replicated set after the round -/
+def roundFinal (R : Rnd κ η) (last ridx : Nat) (l r : List (Item κ η)) : List (Item κ η) :=
+  (roundOps R last ridx l r).foldl (execOp R.fold) l
+
+/-- "Return the index we got back from the remote side" -/
+def roundRet (_last ridx : Nat) : Nat := ridx
+
+/-- The same writes in the OPPOSITE order (upserts before deletions) — not what the code does;
+    kept to state why the order matters (`swapped_order_counterexample`). -/
+def roundFinalSwapped (R : Rnd κ η) (last ridx : Nat) (l r : List (Item κ η)) : List (Item κ η) :=
+  ((batches R.upsLimit Item.size (roundUps R last ridx l r)).map Op.ups ++
+   (batches R.delBatch (fun _ => 1) (roundDels R last ridx l r)).map Op.del).foldl (execOp R.fold) l
+
+/-- what `runACLReplicator` / `Replicator.Run` feed into the next round -/
+def nextLast (failed : Bool) (ret : Nat) : Nat := if failed then 0 else ret
 
 /-! ### the two instances -/
 
 def bytesLt (a b : Bytes) : Bool := decide (a < b)
 
+/-- ASCII lower-casing (`strings.ToLower` on ASCII; hex digits of a UUID) -/
+def lowerB (b : Nat) : Nat := if 65 ≤ b ∧ b ≤ 90 then b + 32 else b
+def lowerBytes (bs : Bytes) : Bytes := bs.map lowerB
+
 /-- `diffACLType`: keys are IDs (Go strings, bytewise `<`), empty ID skipped, `bytes.Equal` on hashes -/
 def aclCfg : Cfg Bytes Bytes := { lt := bytesLt, skip := fun k => k = [], same := fun a b => a = b }
+
+/-- `replicateACLType`: UUID-indexed tables, batches of 4096 deletions / 256 KiB of upserts -/
+def aclRnd : Rnd Bytes Bytes :=
+  { cfg := aclCfg, fold := lowerBytes, noRepl := fun _ => false, delBatch := 4096, upsLimit := 262144 }
 
 abbrev CKey := Bytes × Bytes      -- (kind, name); enterprise meta is the default one in CE
 
@@ -87,5 +177,14 @@ def ckeyLt (a b : CKey) : Bool :=
 
 /-- `diffConfigEntries`: `configentry.Less`, nothing skipped, `SameHash` (zero never matches) -/
 def cfgCfg : Cfg CKey Nat := { lt := ckeyLt, skip := fun _ => false, same := fun a b => a != 0 && b != 0 && a == b }
+
+/-- "exported-services" -/
+def exportedServices : Bytes := [101, 120, 112, 111, 114, 116, 101, 100, 45, 115, 101, 114, 118, 105, 99, 101, 115]
+
+/-- `replicateConfig`: rows keyed by lower-cased kind and name, exported-services never applied,
+    one Raft apply per entry (model: every item has size 1, limit 1) -/
+def cfgRnd : Rnd CKey Nat :=
+  { cfg := cfgCfg, fold := fun k => (lowerBytes k.1, lowerBytes k.2),
+    noRepl := fun k => k.1 = exportedServices, delBatch := 1, upsLimit := 1 }
 
 end CV.Repl
